@@ -20,8 +20,8 @@ PLAN = dict(
                 "own base32); the command-line path is exercised through the binary built from the tree under test."),
     level_note=NOTE_BASE,
     runs=[
-        dict(name="lib", run="^(TestPropLib|TestCorpus)$", checks=(8000, 20000), shards=(1, 8), timeout=(300, 1800)),
-        dict(name="cli", run="^TestPropCLI$", checks=(40, 400), shards=(1, 1), timeout=(300, 1800)),
+        dict(name="lib", run="^(TestPropLib|TestCorpus)$", checks=(8000, 100000), shards=(1, 16), timeout=(300, 3600)),
+        dict(name="cli", run="^TestPropCLI$", checks=(40, 2000), shards=(1, 1), timeout=(300, 3600)),
     ],
     require=[("lib", "dishonest-wrong-key"), ("lib", "history>=2"), ("lib", "extra-attrs"), ("lib", "already-signed-input"), ("lib", "length-too-large"),
              ("cli", "signed-ok"), ("cli", "already-signed-input"), ("cli", "length-too-large")],
